@@ -140,7 +140,7 @@ CHECKS = {
     text=('The real parameter_reader (read_numerical_parameters, read_biomechanical_parameters, read_cell_type_parameters, read_face_type_parameters, get_string_value, lower_string, std::stod/stoi wrappers) runs from the LLVM IR '
           'on files whose structure is concrete (1-3 cell types x 1-3 face types quick, up to 4 x 6 thorough; each single omitted tag or section; INF/inf/Inf) and whose numeric contents are symbolic; tinyxml2 navigation and strtod/strtol '
           'are an environment table. z3 proves per path: accept => every documented constraint and every field equals the symbol of its own tag (order, counts, INF -> +infinity); reject of a complete file => a documented constraint is violated; '
-          'an incomplete file has no accept path. Failed obligations are replayed on real XML files through the native reader (real tinyxml2, shuffled tag order). "Values govern the run" is not covered.'),
+          'an incomplete file has no accept path. Failed obligations are replayed on real XML files through the native reader (real tinyxml2, shuffled tag order). "Values govern the run" is not covered. Consumer side: the real solver constructor runs with the global parameters symbolic; z3 proves that the mesh refiner gets [min_edge_length, 3 min_edge_length] and the swap switch, the integrator the time step and damping coefficient, the contact model both cut-offs (padding = the larger, voxel = 3 l_min + 2 paddings), and that the initial target volume is V exp(initial_pressure / bulk_modulus) (exp uninterpreted).'),
     note='Trusted: clang lowering (validated per run), irsym, the environment table (validated per run against real files), z3. Bounds and the reading of "documented sign constraints" are in the evidence.',
     technique='symbolic execution of LLVM IR with the XML/strtod layer as environment table; z3 (linear real/integer arithmetic); native replay on generated XML files',
     design='3/C18'),
